@@ -117,6 +117,24 @@ pub fn exec(case: &Value) -> Value {
             o.insert("argb_u32".into(), json!(halves(rgba(r, g, b, a).to_argb_u32())));
             o.insert("to_rgba".into(), json!(rgb(r, g, b).to_rgba().0));
             o.insert("to_rgb".into(), json!(rgba(r, g, b, a).to_rgb().0));
+            // four-channel HSL: alpha rides along unchanged, the colour part goes the 3-channel way
+            let r4 = guard(|| {
+                let h4 = rgba(r, g, b, a).to_hsla();
+                let h3 = rgb(r, g, b).to_hsl();
+                let back = h4.to_rgba();
+                let f4 = rgba(r as f32 / 255.0, g as f32 / 255.0, b as f32 / 255.0, a as f32 / 255.0);
+                let fh = f4.to_hsla();
+                let fb = fh.to_rgba();
+                let fa_same = (fh.a().to_bits() == f4.a().to_bits() && fb.a().to_bits() == f4.a().to_bits()) as u8;
+                let fdiff = [(fb.r() - f4.r()).abs(), (fb.g() - f4.g()).abs(), (fb.b() - f4.b()).abs()].iter().fold(0f32, |m, x| m.max(*x));
+                (json!(h4.0), (h4.to_hsl().0 == h3.0) as u8, json!(back.0), fa_same, sc(fdiff))
+            });
+            let (h4, same3, back, fa, fd) = r4.unwrap_or((json!([0, 0, 0, 0]), 0, json!([0, 0, 0, 0]), 0, 1 << 30));
+            o.insert("hsla".into(), h4);
+            o.insert("hsla3".into(), json!(same3));
+            o.insert("hsla_back".into(), back);
+            o.insert("fa_same".into(), json!(fa));
+            o.insert("fdiff".into(), json!(fd));
         }
         "tou8" => {
             let x = f32::from_bits(u32::from_str_radix(gs(case, "xb"), 16).unwrap());
